@@ -13,7 +13,9 @@
 #include "C02_common.hpp"
 #include <fcppt/parse/char.hpp>
 #include <fcppt/parse/char_set.hpp>
+#include <fcppt/parse/digits.hpp>
 #include <fcppt/parse/int.hpp>
+#include <fcppt/parse/list.hpp>
 #include <fcppt/parse/literal.hpp>
 #include <fcppt/parse/make_lexeme.hpp>
 #include <fcppt/parse/result_of.hpp>
@@ -212,6 +214,45 @@ VERIF_HARNESS(h_n05)
 }
 //@harness h_n05 tier=thorough loop=20 wall=900
 
+// n06 / n07: the overflow boundary in the quick tier: a concrete prefix with as many digits as the maximum minus one and
+// ONE symbolic last character: "6553x" for unsigned short (65530..65535 fit, 65536..65539 do not), "429496729x" for
+// unsigned (4294967290..4294967295 fit, ..296..299 do not).  In `uint<T> | +digits` a rejected number takes the second
+// branch (the digit string), an accepted one the first; a non-digit x leaves "6553" / "429496729" accepted.
+namespace
+{
+// a CONCRETE prefix followed by one fully symbolic character
+input prefix_plus_one(char const *const prefix)
+{
+  input in;
+  unsigned n = 0;
+  for (; prefix[n] != 0; ++n)
+    in.b[n] = prefix[n];
+  in.b[n++] = static_cast<char>(verif_u8("last"));
+  in.n = n;
+  for (unsigned i = n; i <= max_len; ++i)
+    in.b[i] = 0;
+  for (unsigned i = 0; i <= max_len; ++i)
+    in.code[i] = static_cast<long>(in.b[i]);
+  return in;
+}
+}
+VERIF_HARNESS(h_n06)
+{
+  static constexpr node g[] = {ALT(1, 2, T_UNSIGNED + 100, T_STRING), UINT(16), PLUS(3), SET("0123456789")};
+  auto const parser{p::uint<unsigned short>{} | +p::digits<char>()};
+  static_assert(std::is_same_v<p::result_of<decltype(parser)>, fcppt::variant::object<unsigned short, std::string>>);
+  check_input<char>(parser, p::skipper::epsilon{}, g, 0, -1, prefix_plus_one("6553"));
+}
+VERIF_HARNESS(h_n07)
+{
+  static constexpr node g[] = {ALT(1, 2, T_UNSIGNED, T_STRING), UINT(32), PLUS(3), SET("0123456789")};
+  auto const parser{p::uint<unsigned>{} | +p::digits<char>()};
+  static_assert(std::is_same_v<p::result_of<decltype(parser)>, fcppt::variant::object<unsigned, std::string>>);
+  check_input<char>(parser, p::skipper::epsilon{}, g, 0, -1, prefix_plus_one("429496729"));
+}
+//@harness h_n06 tier=quick loop=30
+//@harness h_n07 tier=quick loop=30
+
 // ---------------------------------------------------------------------------------------------------------------------
 // Number parsers UNDER AN ACTIVE SKIPPER.  int_ / uint are lexemes ("A signed integer string optionally starts with the
 // symbol '-'.  It is then followed by a nonempty sequence of digits"): the skipper runs only BETWEEN tokens (start of
@@ -342,3 +383,76 @@ VERIF_HARNESS(h_k03b)
 //@harness h_k0{K} for K in 1,2 param n=3..3 tier=thorough loop=24 paths=200000 wall=2400
 //@harness h_k0{K} for K in 3,4,5,6,7 param n=2..2 tier=thorough loop=24
 //@harness h_k0{K}a for K in 1,2,3,4,5,6,7 param n=4..4 tier=thorough loop=24 paths=200000 wall=2400
+
+// ---------------------------------------------------------------------------------------------------------------------
+// Repetition-like parsers with a skipper that CAN FAIL (skipper::literal{' '}, skipper::char_set{' '}, a sequence of two):
+// one iteration is "element, then skipper"; when the skipper fails the iteration fails and the input is rewound to the
+// end of the last COMPLETE iteration.  `*char_set{'a','b'}` on " a b" under skipper::literal{' '} yields "a" and leaves
+// "b".  Bytes symbolic over {a, b, ' '} (list: plus ','), the lexeme'd rest shows the position.
+namespace
+{
+void abs_alphabet(input const &in)
+{
+  for (unsigned i = 0; i < in.n; ++i)
+    verif_assume(in.b[i] == 'a' || in.b[i] == 'b' || in.b[i] == ' ');
+}
+void abs_comma_alphabet(input const &in)
+{
+  for (unsigned i = 0; i < in.n; ++i)
+    verif_assume(in.b[i] == 'a' || in.b[i] == 'b' || in.b[i] == ' ' || in.b[i] == ',');
+}
+constexpr node g_rep_ab[] = {REP(1), SET("ab"), /*2 skipper ' '*/ LIT(' '), /*3 skipper set*/ SET(" "), /*4 skipper ' ' ' '*/ SEQ(2, 2)};
+}
+// (no trailing parser: a sequence would run the failing skipper once more and turn every interesting case into a
+// failure; the position after the success is compared by check())
+VERIF_HARNESS(h_t01)
+{
+  auto const parser{*p::char_set{'a', 'b'}};
+  check(parser, p::skipper::literal{' '}, g_rep_ab, 0, 2, len(), &abs_alphabet);
+}
+VERIF_HARNESS(h_t02)
+{
+  auto const parser{*p::char_set{'a', 'b'}};
+  check(parser, p::skipper::char_set{' '}, g_rep_ab, 0, 3, len(), &abs_alphabet);
+}
+VERIF_HARNESS(h_t03)
+{
+  auto const parser{*p::char_set{'a', 'b'}};
+  check(parser, p::skipper::literal{' '} >> p::skipper::literal{' '}, g_rep_ab, 0, 4, len(), &abs_alphabet);
+}
+VERIF_HARNESS(h_t04)
+{
+  static constexpr node g[] = {PLUS(1), SET("ab"), /*2 skipper*/ LIT(' ')};
+  auto const parser{+p::char_set{'a', 'b'}};
+  check(parser, p::skipper::literal{' '}, g, 0, 2, len(), &abs_alphabet);
+}
+VERIF_HARNESS(h_t05)
+{
+  static constexpr node g[] = {SEP(1, 2), SET("a"), LIT('b'), /*3 skipper*/ LIT(' ')};
+  auto const parser{p::separator{p::char_set{'a'}, p::literal{'b'}}};
+  check(parser, p::skipper::literal{' '}, g, 0, 3, len(), &abs_alphabet);
+}
+VERIF_HARNESS(h_t06)
+{
+  static constexpr node g[] = {LIST(1, 2, 3, 4), LIT('b'), SET("a"), LIT(','), LIT('b'), /*5 skipper*/ LIT(' ')};
+  auto const parser{p::list{p::literal{'b'}, p::char_set{'a'}, p::literal{','}, p::literal{'b'}}};
+  check(parser, p::skipper::literal{' '}, g, 0, 5, len(), &abs_comma_alphabet);
+}
+// the documented example, closed form: " a b" -> "a", rest "b"
+VERIF_HARNESS(h_t00)
+{
+  input in;
+  fresh_input(in, 4);
+  verif_assume(in.b[0] == ' ' && in.b[1] == 'a' && in.b[2] == ' ' && in.b[3] == 'b');
+  arr_stream s{in.b, 4};
+  auto const parser{*p::char_set{'a', 'b'}};
+  auto const r{p::phrase_parse(parser, s, p::skipper::literal{' '})};
+  verif_assert(r.has_success(), "repetition never fails");
+  verif_assert(r.get_success_unsafe() == std::string{"a"}, "only the complete iteration (a + blank) counts");
+  verif_out("pos", s.pos());
+  verif_assert(s.pos() == 3, "the stream is rewound to the end of the last complete iteration: b is unread");
+  verif_reach("end");
+}
+//@harness h_t00 tier=quick loop=24
+//@harness h_t0{K} for K in 1,2,3,4,5,6 param n=0..4 tier=quick loop=24
+//@harness h_t0{K} for K in 1,2,3,4,5 param n=5..5 tier=thorough loop=24
